@@ -30,19 +30,28 @@ pub fn def() -> PropDef {
 }
 
 fn gen(rng: &mut Rng, tier: Tier) -> Value {
-  json!({ "spec": super::c02::ascii_tree_case(rng, tier) })
+  // the order of the two calls matters for trees with caches: stream first
+  // fills them by streaming, map() first fills them from the inner map()
+  json!({ "spec": super::c02::ascii_tree_case(rng, tier), "map_first": rng.chance(1, 2) })
 }
 
 fn check(case: &Value, obs: &mut Obs) {
   let spec = super::spec_of(case);
   let src = build_box(&spec);
   let source = src.source().to_string();
+  let map_first = case["map_first"].as_bool().unwrap_or(false);
+  obs.class(if map_first { "map_then_stream" } else { "stream_then_map" });
   let mut mapped_chars = 0u64;
   let mut unmapped_chars = 0u64;
   for columns in [true, false] {
     let opts = MapOptions::new(columns);
-    let rec = record(&src, &opts);
-    let map = src.map(&opts);
+    let (rec, map) = if map_first {
+      let map = src.map(&opts);
+      (record(&src, &opts), map)
+    } else {
+      let rec = record(&src, &opts);
+      (rec, src.map(&opts))
+    };
     if rec.text() != source {
       obs.count("skipped_stream_text_differs(C01)", 1);
       continue;
